@@ -2,7 +2,7 @@
    before anything runs, and only real ones).  Statements closed by [exact lemma],
    non-vacuity Examples, and [Print Assumptions]. *)
 From RJ Require Import Base.Outcome Model.Token Model.Ast Model.Ir Model.Analyze Proofs.Analyze_proofs
-  Proofs.AnalyzeRt_proofs.
+  Proofs.AnalyzeRt_proofs Proofs.AnalyzeLoc_proofs.
 Local Open Scope N_scope.
 
 (* The analyzer (mirror of program/analyze.rs) accepts a program exactly when
@@ -62,14 +62,15 @@ Theorem C09_analyze_walk_no_unbound : forall e vs io ts i r,
   analyze_expr e (mk_env io vs) ts = Ok i -> covers r vs io -> walk r i = Ok tt.
 Proof. exact analyze_walk_no_unbound. Qed.
 
-(* NOT PROVED (kept as the pinned goal): a diagnostic is located at a node of the
-   program — every span it carries is the span of a node, of its super token, of
-   its identifier or of a name of a binder group / field the node introduces.
-   On the implementation this is checked per case, more strongly: the reported
-   spans must be exactly those of the injected token(s) (tools/props/c09.py). *)
-Definition C09_goal_error_located : Prop :=
-  forall e en ts x, analyze_expr e en ts = Err x ->
+(* a diagnostic is one of the ten kinds of [analyze_error] (by its type) and is
+   located at a node of the program: every span it carries is the span of a node,
+   of its super token, of its identifier, or of a name of a binder group / field
+   the node introduces ([node_spans]).  On the implementation the check is
+   stronger: exactly the injected token(s), exactly the name. *)
+Theorem C09_analyze_error_kind : forall e en ts x,
+  analyze_expr e en ts = Err x ->
   forall sp, In sp (error_spans x) -> exists n, In n (nodes e) /\ In sp (node_spans n).
+Proof. exact analyze_error_located. Qed.
 
 (* ---- non-vacuity ---- *)
 Definition sp0 : span := (0, 0).
@@ -126,6 +127,7 @@ Print Assumptions C09_analyze_no_panic.
 Print Assumptions C09_field_name_sees_outer_scope.
 Print Assumptions C09_comp_vars_left_to_right.
 Print Assumptions C09_object_locals_mutual.
+Print Assumptions C09_analyze_error_kind.
 Print Assumptions C09_analyze_closed.
 Print Assumptions C09_walk_no_unbound.
 Print Assumptions C09_analyze_walk_no_unbound.
